@@ -79,4 +79,17 @@ CHECKS = {
   'note': TB,
   'technique': 'Coq totality theorems (no Stuck, no Fuel) + panic/crash/hang search in-process and in child processes',
  },
+ 'C07': {
+  'text': ("Proof (Coq): the array decoder's write set -- element stores plus the stores that clear elements a short JSON array does not supply, with the "
+           "width of the clearing store read by the translator from internal/decoder/array.go at every fill site -- lies inside the array's own n*size bytes for "
+           "EVERY base offset, element size, length and number of supplied elements (the one-word store the code used before the recorded fix is refuted with a witness); "
+           "the in-place unescape never produces more bytes than it has consumed, so its write index cannot pass its read index. The rest is observed: "
+           "reflect.StructOf destinations of the C02 grammar with adjacent byte canaries before, between and after every field, element sizes 1..64 in arrays "
+           "and slices, guard elements behind slice capacity, valid/truncated/mutated documents addressing subsets, buffer and piecewise stream modes; after each "
+           "decode every canary and guard byte, every unaddressed field, the caller's input bytes, every string/slice header and a full traversal before and after a "
+           "forced GC are checked, the array write set is compared with the model, and the same cases run in a child built with -d=checkptr. Partial: only the array "
+           "fill and unescape arithmetic are theorems; struct field offsets, slice/map/pointer stores and the runtime helpers are covered by canaries only."),
+  'note': TB,
+  'technique': 'Coq write-set bounds theorems over translated fill statement + canary/guard/header/GC/checkptr differential harness',
+ },
 }
